@@ -598,6 +598,8 @@ def _progress(ctx, names):
     LK = sorted({st[2][4] for _, _, st in tkf.stmts() if st[0] == "a" and st[2][0] == "agg" and st[2][1] == "adt"
                  and st[2][2].endswith("kind::SyntaxKind")})
     ctx.floor("terminal kinds the lexer can produce", len(LK), 60)
+    ALL_KINDS = list(LK)
+
     def guarded_panics(ai, ai_top, rule, kinds, cand_extra, what):
         """Routines that panic for some next-terminal kinds are reached only with the other kinds."""
         LK = kinds
@@ -638,8 +640,13 @@ def _progress(ctx, names):
             g = c.path
             if g not in pf:
                 return True
+            if last_seg(g) == "unglue":
+                # replaces the next terminal by its two halves: afterwards the kind is known (the interpreter's model of
+                # the call), not arbitrary
+                return False
             if g not in consumes:
-                consumes[g] = any(cons for cx in contexts[g] for k in LK for _, cons in ai.outcomes(g, k, cx[0], cx[1]))
+                # (for any kind the lexer produces, not only the kinds this pass looks at)
+                consumes[g] = any(cons for cx in contexts[g] for k in ALL_KINDS for _, cons in ai.outcomes(g, k, cx[0], cx[1]))
             return consumes[g]
         post = PostState(A, ai, ai_top, pf, LK, may_consume)
         roots = [q for q in ppf if last_seg(q) in ("parse_syntax_file", "parse_file_expr", "parse_token_stream", "parse_token_stream_expr", "parse_file_statement_list",
